@@ -26,6 +26,10 @@ FUNCS = {
     'things.Statics.cmake': (['x', 'y'], [], False, False, []),
 }
 FACTORIES = ['things.make_list', 'things.make_rec', 'things.ident']
+# factories with bound arguments (functools.partial inside arg_factory.partial becomes an ArgFactory)
+BOUND_FACTORIES = ['functools.partial(things.g3, 1, 2, 3)', 'functools.partial(things.po2, 7)',
+                   'functools.partial(things.g3, 1, k=2)', 'functools.partial(things.po2, 7, 8, a=9)',
+                   'functools.partial(things.make_rec, tag=5)']
 _LITS = ['1', '2', "'s'", 'None', 'True', '2.5', "'x y'", '(1, 2)', "b'b'"]
 
 
@@ -243,7 +247,7 @@ def exprs(draw, depth, names, helpers, control_flow, allow_partial=True, pvars=(
     fname = draw(st.sampled_from(['things.f2', 'things.h1', 'things.Base', 'things.ident']))
     pk = FUNCS[fname][0]
     names_ = draw(st.lists(st.sampled_from(pk), unique=True, min_size=1, max_size=2))
-    return ['afpartial', fname, {n: draw(st.sampled_from(FACTORIES)) for n in names_}]
+    return ['afpartial', fname, {n: draw(st.sampled_from(FACTORIES + BOUND_FACTORIES)) for n in names_}]
   if kind == 'helper':
     return ['helper', draw(st.integers(0, helpers - 1)), [sub()] if draw(st.booleans()) else []]
   if kind == 'tags':
